@@ -89,7 +89,17 @@ def make(rng, kind, d=2):
             cls = [CachedPWA, PythonPWA][rng.integers(0, 2)]
         else:
             cls = CachedPWA if kind == "PiecewiseAffine" else PythonPWA
-        return cls(s, t), (lambda: cls(s.copy(), t.copy()))
+        if rng.random() < 0.2:
+            # target landmarks given as integer pixel positions (when that keeps every triangle's orientation)
+            import menpo.shape as ms
+            ti = np.round(t.points).astype(np.int64)
+            tl_ = np.asarray(s.trilist)
+            a2, b2 = gen.tri_area2(s.points, tl_), gen.tri_area2(ti.astype(float), tl_)
+            proper = np.abs(a2) > 1e-9
+            if (np.sign(a2[proper]) == np.sign(b2[proper])).all() and np.abs(b2[proper]).min() > 1.0:
+                t = ms.PointCloud(ti)
+        # (the live object gets its own copies: the recipe's closure must not share the point clouds the object holds)
+        return cls(s.copy(), t.copy()), (lambda: cls(s.copy(), t.copy()))
     if kind == "ThinPlateSplines":
         s, t = tps_pair(rng)
         k = int(rng.integers(0, 3))
